@@ -217,6 +217,60 @@ func probeLine(r *eng.Result, id int) string {
 	return s
 }
 
+// Two DIFFERENT struct types whose reflect.Type.String() is the same (handler-local types with one name):
+// same field names at other positions and with other tags.
+func sameNameFormA() any {
+	type form struct {
+		Name  string `zog:"full_name"`
+		Email string
+	}
+	return &form{}
+}
+
+func sameNameFormB() any {
+	type form struct {
+		Email string `zog:"mail"`
+		Name  string
+	}
+	return &form{}
+}
+
+// sameNameTypesProbe: one schema object used with destination type A and then with type B must treat B
+// exactly as a fresh schema object does (returns a description of the difference, "" if none).
+func sameNameTypesProbe() string {
+	mk := func() *z.StructSchema {
+		return z.Struct(z.Schema{"name": z.String().Required().Min(3), "email": z.String().Required().Contains("@")})
+	}
+	dataA := map[string]any{"full_name": "Ann", "email": "ann@example.com"}
+	dataB := map[string]any{"mail": "bob@example.com", "name": "Bob"}
+	run := func(s *z.StructSchema, data map[string]any, dest any) string {
+		m := s.Parse(data, dest)
+		return mapLine(m) + fmt.Sprintf(" %+v", reflect.ValueOf(dest).Elem().Interface())
+	}
+	for _, mode := range []string{"parse", "validate"} {
+		shared := mk()
+		var got, want string
+		if mode == "parse" {
+			run(shared, dataA, sameNameFormA())
+			got = run(shared, dataB, sameNameFormB())
+			want = run(mk(), dataB, sameNameFormB())
+		} else {
+			a, b1, b2 := sameNameFormA(), sameNameFormB(), sameNameFormB()
+			shared.Parse(dataA, a)
+			shared.Validate(a)
+			fresh := mk()
+			fresh.Parse(dataB, b1)
+			fresh.Parse(dataB, b2)
+			got = mapLine(shared.Validate(b1)) + fmt.Sprintf(" %+v", reflect.ValueOf(b1).Elem().Interface())
+			want = mapLine(fresh.Validate(b2)) + fmt.Sprintf(" %+v", reflect.ValueOf(b2).Elem().Interface())
+		}
+		if got != want {
+			return mode + ": after a call with another destination type of the same name: " + got + " ; a fresh schema object: " + want
+		}
+	}
+	return ""
+}
+
 func streamPool(seed uint64, n int) (*Summary, error) {
 	sum := newSummary("pool", seed)
 	sum.Rule = "probe = a random engine-stream case; (i) planted dirt: every exported pool pre-filled with objects whose every field holds stale values (context values incl. a language, catching flags, a formatter, issue fields, path segments), GOMAXPROCS(1) and GC off so that Get returns what was Put; (ii) random histories of 1..6 earlier calls, each optionally handed back through CollectMap/CollectList/SanitizeMapAndCollect/SanitizeListAndCollect/Collect; the probe must equal the same probe on cleared pools and its issues must be pairwise distinct objects; non-trivial = probe produces at least one issue or runs a callback; distinct = distinct probe line"
@@ -226,6 +280,10 @@ func streamPool(seed uint64, n int) (*Summary, error) {
 	defer debug.SetGCPercent(gc)
 	root := rng.New(seed)
 	distinct := map[string]bool{}
+	sum.Evaluations++
+	if diff := sameNameTypesProbe(); diff != "" {
+		sum.addViolation("C07", Mismatch{Case: "Struct{name, email} parsed into handler-local `type form struct{Name `zog:\"full_name\"`; Email}` and then into another handler-local `type form struct{Email `zog:\"mail\"`; Name}`", What: "the result of a call depends on the destination type an EARLIER call with the same schema used", Impl: diff})
+	}
 	for i := 0; i < n; i++ {
 		if i%100 == 99 {
 			runtime.GC() // the collector is off while a probe runs; collect between probes (every probe starts from cleared pools)
